@@ -13,7 +13,9 @@
 //!
 //! Mutants caught (tools/mutant_run.sh F <diff> C29 quick):
 //!  * /verif/mutants/C29-no-canonical-check.diff  (symlink containment step of resolve_within_root dropped)
+//!      -> new keys `outside-read op=get|write_stream|archive+sign ...`, `outside-revealed op=exists ...`, `outside-path op=path_for_id ...`
 //!  * /verif/mutants/C29-sanitize-allows-parent.diff (sanitize_archive_path lets `..` through)
+//!      -> new keys `outside-modified op=add via=dotdot`, `... via=plain`, same for builder.add_resource
 
 use std::{
     collections::BTreeMap,
@@ -1131,7 +1133,7 @@ impl Pk {
 }
 
 /// Build `top/outside` (sentinels) and `top/export` with the given deviations; run to_folder; judge.
-fn export_case(exp: &Export, devs: &[(usize, Pk)]) -> (String, Vec<(String, String)>) {
+fn export_case(exp: &Export, devs: &[(usize, Pk)]) -> (String, Vec<(String, String)>, Vec<String>, Vec<(usize, Pk)>) {
     let top = new_top();
     let t = top.path().canonicalize().unwrap_or_else(|e| kit::ev::machinery(format!("canonicalize: {e}")));
     let outside = t.join("outside");
@@ -1190,23 +1192,12 @@ fn export_case(exp: &Export, devs: &[(usize, Pk)]) -> (String, Vec<(String, Stri
         Ok(Err(e)) => format!("err:{}", short_err(e)),
     };
     let d = fsnap::diff(&before, &after);
-    if !d.is_empty() {
-        // key by the first applied deviation that is a way out
-        let via = applied
-            .iter()
-            .filter(|(_, k)| matches!(k, Pk::LnOutFile | Pk::LnOutDir | Pk::DangOut | Pk::ChainOutFile | Pk::ChainOutDir))
-            .map(|(p, k)| {
-                let is_file_pos = exp.files.contains(p);
-                format!("{}@{}", k.name(), if is_file_pos { "exported-file" } else { "intermediate-dir" })
-            })
-            .collect::<Vec<_>>()
-            .join("+");
-        v.push((
-            format!("outside-modified op=to_folder via={via}"),
-            format!("Reader::to_folder into a folder containing {applied:?} changed the outside directory: {d:?} (result {class})"),
-        ));
-    }
-    (format!("{class}{}", if d.is_empty() { "" } else { "-OUTSIDE-MODIFIED" }), v)
+    let applied_idx: Vec<(usize, Pk)> = applied.iter().filter_map(|(p, k)| exp.positions.iter().position(|q| q == p).map(|i| (i, *k))).collect();
+    (format!("{class}{}", if d.is_empty() { "" } else { "-OUTSIDE-MODIFIED" }), v, d, applied_idx)
+}
+
+fn export_via(exp: &Export, i: usize, k: Pk) -> String {
+    format!("{}@{}", k.name(), if exp.files.contains(&exp.positions[i]) { "exported-file" } else { "intermediate-dir" })
 }
 
 // ------------------------------------------------------------------------------------------------
@@ -1232,7 +1223,7 @@ impl Dedup {
 }
 
 pub fn run(run: &Run, replay: Option<&Value>) {
-    run.rule("store family: every tree (root entries a,b; a in all 155 variants of {absent,file,dir(with children a,b of every kind),symlink->inside file/dir,symlink->outside file/dir,dangling inside/outside,chained->outside file/dir,chain via outside back inside}; b in a stated subset) x every identifier of <= N segments over {a,b,..,.,\"\",a\\..,%2e%2e,..%2f,/abs} x ops {get,write_stream,exists,path_for_id,add,Builder::add_resource,with_archive+sign}. \
+    run.rule("store family: every tree (root entries a,b; space A: a in all 155 variants of {absent,file,dir(with children a,b of every kind),symlink->inside file/dir,symlink->outside file/dir,dangling inside/outside,chained->outside file/dir,chain via outside back inside}, b a plain directory; space B (thorough): a in all variants x b in each of the 12 leaf kinds) x every identifier of <= N segments over {a,b,..,.,\"\",a\\..,%2e%2e,..%2f,/abs} x ops {get,write_stream,exists,path_for_id,add,Builder::add_resource,with_archive+sign}. \
               export family: Reader::to_folder into folders in which every subset of <= 2 of the paths it writes (files and intermediate directories) is pre-populated with each of 9 kinds. \
               non-trivial = (tree,id) pairs whose real location (per the model resolver) exists and lies outside the manifest root or is reached through a symlink; export cases with at least one link leading outside");
     run.assume("Linux path semantics; temp dirs live under $VERIF_TMP, else /dev/shm (tmpfs), else /tmp, and are removed; base path is the canonical absolute path of the generated root");
@@ -1394,18 +1385,48 @@ pub fn run(run: &Run, replay: Option<&Value>) {
     }
     run.space(&format!("export family: to_folder with <= 2 of its {npos} written paths pre-populated by one of {} kinds", PKS.len()), cases.len() as u64, true);
     run.extra("to_folder_paths", json!(exp.positions.iter().map(|p| p.display().to_string()).collect::<Vec<_>>()));
-    par::for_each(&cases, |devs| {
+    // single deviations first: they say which (position, kind) is a way out on its own; pairs are then attributed to their
+    // members that already fail alone, so that a pair only gets a key of its own when it fails as a combination
+    let bad_single: Mutex<std::collections::BTreeSet<(usize, u8)>> = Mutex::new(Default::default());
+    let pk_idx = |k: Pk| PKS.iter().position(|x| *x == k).unwrap_or(0) as u8;
+    let judge = |devs: &Vec<(usize, Pk)>, singles_known: bool| {
         run.eval();
-        let (class, v) = export_case(&exp, devs);
+        let (class, mut v, d, applied) = export_case(&exp, devs);
         run.outcome(format!("to_folder -> {class}"));
         if devs.iter().any(|(_, k)| matches!(k, Pk::LnOutFile | Pk::LnOutDir | Pk::DangOut | Pk::ChainOutFile | Pk::ChainOutDir)) {
             run.nontrivial(format!("export {devs:?}"));
+        }
+        if !d.is_empty() {
+            let what = format!("Reader::to_folder into a folder pre-populated with {:?} changed the outside directory: {d:?} (result {class})", applied.iter().map(|(i, k)| format!("{} = {}", exp.positions[*i].display(), k.name())).collect::<Vec<_>>());
+            let mut vias: Vec<String> = vec![];
+            if devs.len() == 1 {
+                bad_single.lock().unwrap().insert((devs[0].0, pk_idx(devs[0].1)));
+                vias.push(export_via(&exp, devs[0].0, devs[0].1));
+            } else if singles_known {
+                let g = bad_single.lock().unwrap();
+                for (i, k) in &applied {
+                    if g.contains(&(*i, pk_idx(*k))) {
+                        vias.push(export_via(&exp, *i, *k));
+                    }
+                }
+                if vias.is_empty() {
+                    vias.push(format!("combination({})", applied.iter().map(|(i, k)| export_via(&exp, *i, *k)).collect::<Vec<_>>().join("+")));
+                }
+            }
+            vias.sort();
+            vias.dedup();
+            for via in vias {
+                v.push((format!("outside-modified op=to_folder via={via}"), what.clone()));
+            }
         }
         for (key, what) in v {
             let case = json!({"family": "export", "deviations": devs.iter().map(|(i, k)| json!({"position": i, "path": exp.positions[*i].display().to_string(), "kind": k.name()})).collect::<Vec<_>>()});
             dedup.add(key, what, case);
         }
-    });
+    };
+    let (singles, pairs): (Vec<_>, Vec<_>) = cases.iter().cloned().partition(|c| c.len() <= 1);
+    par::for_each(&singles, |devs| judge(devs, false));
+    par::for_each(&pairs, |devs| judge(devs, true));
     dedup.flush(run);
 }
 
@@ -1459,8 +1480,11 @@ fn replay_case(run: &Run, c: &Value, signer: &dyn c2pa::Signer, png: &[u8]) {
                 })
                 .unwrap_or_default();
             println!("to_folder writes: {:?}", exp.positions);
-            let (class, v) = export_case(&exp, &devs);
-            println!("to_folder with {devs:?} -> {class}");
+            let (class, mut v, d, _) = export_case(&exp, &devs);
+            println!("to_folder with {devs:?} -> {class}; outside changes: {d:?}");
+            if !d.is_empty() {
+                v.push(("outside-modified op=to_folder".into(), format!("outside directory changed: {d:?}")));
+            }
             for (k, what) in v {
                 println!("  VIOLATES [{k}]: {what}");
                 run.violation(k, what, c.clone());
